@@ -174,7 +174,14 @@ def edit(ctx):
             new = G.fresh_name(ctx, "e", len(old))
             G.require(ctx, new.lower() != old.lower())
             lines = lines[:e] + [" ".join(words[:-1] + [new])] + lines[e + 1:]
-    _rejected(ctx, "\n".join(lines) + "\n", p["std"], "ill-nested program accepted (" + kind + " of " + p["of"] + ")")
+    tag = ""
+    endl = _lines(p["prog"])[e].strip().lower()
+    if kind in ("del_open", "dup_end") and (endl.startswith("end do") or endl.startswith("enddo")):
+        for l in _lines(p["prog"])[:s]:
+            w = l.strip().split(" ")
+            if w[0] == "do" and len(w) > 1 and w[1][:1].isdigit():
+                tag = " [dangling END DO inside a labelled DO]"
+    _rejected(ctx, "\n".join(lines) + "\n", p["std"], "ill-nested program accepted (" + kind + " of " + p["of"] + ")" + tag)
 
 
 def paren(ctx):
